@@ -238,7 +238,7 @@ def filterLoop (ext : Ext) (parms : Nat â†’ Option Dict) : Nat â†’ List Bytes â†
 def decompressedContent (ext : Ext) (s : Strm) : Outcome Bytes :=
   match streamFilters s.dict with
   | none => .err "filter"
-  | some [] => .ok []                       -- `output = vec![]`, loop does not run
+  | some [] => .ok s.content                -- an empty filter array: the content is not encoded at all (lopdf 70e5e99)
   | some fs => filterLoop ext (stageParms s.dict) 0 fs s.content
 
 def getPlainContent (ext : Ext) (s : Strm) : Outcome Bytes :=
